@@ -169,6 +169,9 @@ def run(rep, work, tier, seed):
         "pauses are observed through the patched time.sleep (sync) and the virtual loop clock + timer count (async)",
         "a wrapped callable without __name__ (e.g. functools.partial) is outside the property as stated",
     ]
+    # the decorator stacked with the others (Stack.tla): every layer acts on the layer below it
+    from props.stack_common import stack_legs
+    stack_legs(rep, work, tier, "retry")
     return rep.finish(exhaustive=True,
                       rule="every outcome sequence up to limit+1 invocations for every configuration (limit x catching "
                            "form x delay form x sync/async) is a path of the TLC graph; every edge is replayed into "
@@ -177,6 +180,9 @@ def run(rep, work, tier, seed):
 
 def replay(rep, record):
     from harness.graph import parse_label
+    if record.get("spec") == "Stack":
+        from props.stack_common import replay_stack
+        return replay_stack(record)
     d = RetryDriver()
     d.reset(record["init"])
     print("  config:", record["init"]["cfg"])
